@@ -425,8 +425,9 @@ func guarded(f func(), limit time.Duration) (string, time.Duration) {
 
 func c07(c *h.Ctx) {
 	r := c.R
+	c07Decoders = append(c07Decoders, c07JoseDecoders(c)...)
 	sort.Slice(c07Decoders, func(i, j int) bool { return c07Decoders[i].name < c07Decoders[j].name })
-	perDecoder := c.N(1500, 40000)
+	perDecoder := c.N(4000, 60000)
 	slowest := map[string]time.Duration{}
 	for _, d := range c07Decoders {
 		seeds := d.seeds(r)
@@ -655,6 +656,14 @@ func timingProbes(c *h.Ctx) {
 		t1 := bestOf(func() { f.run(b1) })
 		t2 := bestOf(func() { f.run(b2) })
 		ratio := float64(t2) / float64(t1+1)
+		// a loaded machine makes single measurements noisy: an alarm needs the ratio to stay high in 3 more rounds
+		for round := 0; round < 3 && ratio >= 3.2; round++ {
+			t1 = bestOf(func() { f.run(b1) })
+			t2 = bestOf(func() { f.run(b2) })
+			if r2 := float64(t2) / float64(t1+1); r2 < ratio {
+				ratio = r2
+			}
+		}
 		in := fmt.Sprintf("timing %s n=%d (%d B) vs 2n (%d B)", f.name, f.n, len(b1), len(b2))
 		// linear: ratio about 2. Quadratic: about 4. Below 1 ms the measurement is noise and is not judged.
 		judged := t2 > 2*time.Millisecond
